@@ -27,8 +27,8 @@ namespace ratio
 
     inline type &get_type() const noexcept { return tp; }
 
-    virtual smt::lit new_eq(item &i) noexcept;
-    virtual bool equates(item &i) noexcept;
+    virtual smt::lit new_eq(item &i);   // may throw std::invalid_argument: two time-point expressions whose equality is not a difference constraint..
+    virtual bool equates(item &i);
 
     virtual smt::json to_json() const noexcept;
 
@@ -72,8 +72,8 @@ namespace ratio
     arith_item(const arith_item &that) = delete;
     CORE_EXPORT virtual ~arith_item() = default;
 
-    smt::lit new_eq(item &i) noexcept override;
-    bool equates(item &i) noexcept override;
+    smt::lit new_eq(item &i) override;
+    bool equates(item &i) override;
 
   private:
     smt::json value_to_json() const noexcept override;
